@@ -17,7 +17,7 @@
    is modelled cell-wise: the value of an output cell is the one written by the
    LAST tile (in iteration order) whose output slice contains the cell, else 0. *)
 From Coq Require Import String ZArith List Bool.
-From HD Require Import Base.Val C12_Model.
+From HD Require Import Base.Val Base.PySlice C12_Model.
 Import ListNotations.
 Open Scope Z_scope.
 
@@ -51,6 +51,7 @@ Definition standardize_rc (as_indices : bool) (rs re cs ce : option Z) (rows col
   let cs1 := dflt 1 (pre_idx as_indices cs) in
   let ce1 := dflt (cols + 1) (pre_idx as_indices ce) in
   if (cs1 =? 0) || (rs1 =? 0) then Err "ValueError"
+  else if (ce1 =? 0) || (re1 =? 0) then Err "ValueError"
   else
     bind (std_start rows rs1) (fun rs2 =>
     bind (std_end rows re1) (fun re2 =>
@@ -354,4 +355,163 @@ Definition run_seg_geom (ty : segtype) (maxfrac : Z) (full omit : bool) (planes 
                    | _ => vres (fun l => VL (map vz_list2 l)) (seg_read st sel RD CD th tw ai rs re cs ce)
                    end
                  end) regions)
+  end.
+
+(* ---------------------------------------------------------------------- *)
+(* the frame loop of _get_pixels_by_frame as ARRAY UPDATES                   *)
+(*   out = np.zeros(shape); for (rp, cp, frame) in ORDER BY ...:             *)
+(*       out[out_rows, out_cols] = frame[in_rows, in_cols]                   *)
+(* (proved equal to the cell-wise [read_region]: C04_Proofs_Arr.v)           *)
+(* ---------------------------------------------------------------------- *)
+(* a[lo:hi] (step 1) on an axis of length n: CPython slice.indices, then the
+   half-open index range [a, max a b) *)
+Definition np_slice (n lo hi : Z) : Z * Z :=
+  let a := clamp_idx 0 n n lo in
+  let b := clamp_idx 0 n n hi in (a, Z.max a b).
+
+Definition mapi {A B} (f : Z -> A -> B) (l : list A) : list B :=
+  map (fun p => f (fst p) (snd p)) (combine (zrange (Z.of_nat (length l))) l).
+
+(* out[orl:orh, ocl:och] = frame[irl:irh, icl:ich] for an H x W array and an
+   fh x fw frame.  Equal slice shapes: position-wise copy.  Different shapes:
+   ValueError (numpy would broadcast a length-1 source axis first; this branch
+   is proved unreachable for the slices of the tiled-region iterator). *)
+Definition assign2d (H W : Z) (out : list (list Z)) (orl orh ocl och : Z)
+           (fh fw : Z) (frame : list (list Z)) (irl irh icl ich : Z) : res (list (list Z)) :=
+  let r := np_slice H orl orh in let c := np_slice W ocl och in
+  let a := np_slice fh irl irh in let b := np_slice fw icl ich in
+  if negb ((snd r - fst r =? snd a - fst a) && (snd c - fst c =? snd b - fst b)) then Err "ValueError"
+  else Ok (mapi (fun i row =>
+             if (fst r <=? i) && (i <? snd r) then
+               mapi (fun j v => if (fst c <=? j) && (j <? snd c)
+                                then cell frame (fst a + (i - fst r)) (fst b + (j - fst c)) else v) row
+             else row) out).
+
+Definition zeros2 (H W : Z) : list (list Z) := map (fun _ => map (fun _ => 0) (zrange W)) (zrange H).
+
+(* one iteration of the loop for a frame the WHERE clause selected *)
+Definition paste (s e cs ce th tw : Z) (out : list (list Z)) (t : tile) : res (list (list Z)) :=
+  assign2d (e - s) (ce - cs) out
+           (out_lo s (t_rp t)) (out_hi s e th (t_rp t)) (out_lo cs (t_cp t)) (out_hi cs ce tw (t_cp t))
+           th tw (t_px t)
+           (in_lo s (t_rp t)) (in_hi e th (t_rp t)) (in_lo cs (t_cp t)) (in_hi ce tw (t_cp t)).
+
+(* WHERE ... ORDER BY ...; then the loop (the order among frames with equal
+   positions is unspecified in SQL; such images are refused before) *)
+Definition read_region_arr (ts : list tile) (s e cs ce th tw : Z) : res (list (list Z)) :=
+  fold_left (fun acc t => bind acc (fun out => paste s e cs ce th tw out t))
+            (filter (tile_selected s e cs ce th tw) (sort_tiles ts))
+            (Ok (zeros2 (e - s) (ce - cs))).
+
+(* read_std / img_read with the array loop *)
+Definition read_std_arr (check_count : bool) (ts : list tile) (R C th tw : Z)
+           (as_indices : bool) (rs re cs ce : option Z) : res (list (list Z)) :=
+  bind (standardize_rc as_indices rs re cs ce R C) (fun t =>
+    match t with (s, e, c0, c1) =>
+      if check_count &&
+         negb (count_selected ts s e c0 c1 th tw =? frames_expected s e th * frames_expected c0 c1 tw)
+      then Err "RuntimeError"
+      else if (e - s <? 0) || (c1 - c0 <? 0) then Err "ValueError"
+      else read_region_arr ts s e c0 c1 th tw
+    end).
+Definition img_read_arr (full : bool) (ts : list tile) (R C th tw : Z)
+           (as_indices : bool) (rs re cs ce : option Z) : res (list (list Z)) :=
+  if negb (unique_positions ts) then Err "RuntimeError"
+  else read_std_arr (negb full) ts R C th tw as_indices rs re cs ce.
+
+Definition run_img_arr (full : bool) (R C th tw : Z) (planes : list (list tile))
+           (as_indices : bool) rs re cs ce : val :=
+  vres (fun l => VL (map vz_list2 l))
+       (all_ok (map (fun ts => img_read_arr full ts R C th tw as_indices rs re cs ce) planes)).
+Definition run_img_full_arr (R C th tw : Z) (planes : list (list (list (list Z))))
+           (as_indices : bool) rs re cs ce : val :=
+  run_img_arr true R C th tw (map (imply_full R C th tw) planes) as_indices rs re cs ce.
+
+(* ---------------------------------------------------------------------- *)
+(* Image.get_volume / Segmentation.get_volume on a TILED image (image.py    *)
+(* 5141-5199, seg/sop.py 4462-4529): the region arguments are standardised   *)
+(* to zero-based indices FIRST (outputs_as_indices=True) and                 *)
+(* get_total_pixel_matrix is then called with as_indices=True on the result, *)
+(* which standardises a second time.                                         *)
+(* ---------------------------------------------------------------------- *)
+Definition vol_region {A} (ai : bool) (rs re cs ce : option Z) (R C : Z)
+           (read : bool -> option Z -> option Z -> option Z -> option Z -> res A) : res A :=
+  bind (standardize_rc_out ai true rs re cs ce R C) (fun t =>
+    match t with (a, b, c, d) => read true (Some a) (Some b) (Some c) (Some d) end).
+
+Definition img_vol_read (full : bool) (ts : list tile) (R C th tw : Z)
+           (ai : bool) (rs re cs ce : option Z) : res (list (list Z)) :=
+  vol_region ai rs re cs ce R C (img_read full ts R C th tw).
+
+(* all sample planes; the array of the Volume is the region with a leading axis of length 1 *)
+Definition run_img_vol (full : bool) (R C th tw : Z) (planes : list (list tile))
+           (ai : bool) rs re cs ce : val :=
+  vres (fun l => VL (map vz_list2 l))
+       (all_ok (map (fun ts => img_vol_read full ts R C th tw ai rs re cs ce) planes)).
+Definition run_img_full_vol (R C th tw : Z) (planes : list (list (list (list Z))))
+           (ai : bool) rs re cs ce : val :=
+  run_img_vol true R C th tw (map (imply_full R C th tw) planes) ai rs re cs ce.
+
+(* ---------------------------------------------------------------------- *)
+(* Segmentation.get_total_pixel_matrix: checks on segment_numbers and the    *)
+(* remaining output modes                                                    *)
+(* ---------------------------------------------------------------------- *)
+(* `if len(segment_numbers) == 0: raise ValueError`; numbers that are not
+   described segments: ValueError ("invalid values") *)
+Definition sel_ok (described sel : list Z) : bool :=
+  negb (match sel with [] => true | _ => false end) &&
+  forallb (fun k => existsb (Z.eqb k) described) sel.
+
+(* LABELMAP, combine_segments=False: one binary plane (stored value == k) per requested segment *)
+Definition seg_read_labelmap_planes (st : list stile) (sel : list Z) (R C th tw : Z)
+           (as_indices : bool) (rs re cs ce : option Z) : res (list (list (list Z))) :=
+  bind (read_std false (tiles_of_seg 0 st) R C th tw as_indices rs re cs ce) (fun a =>
+    Ok (map (fun k => map (map (fun v => if v =? k then 1 else 0)) a) sel)).
+
+(* 1-based position of the first occurrence of v in sel, 0 when absent *)
+Fixpoint index1 (v : Z) (sel : list Z) : Z :=
+  match sel with
+  | [] => 0
+  | k :: r => if v =? k then 1 else (let i := index1 v r in if i =? 0 then 0 else i + 1)
+  end.
+(* LABELMAP, combine_segments=True, relabel=True: segment sel[i] is shown as i + 1 *)
+Definition seg_read_labelmap_relabel (st : list stile) (sel : list Z) (R C th tw : Z)
+           (as_indices : bool) (rs re cs ce : option Z) : res (list (list Z)) :=
+  bind (read_std false (tiles_of_seg 0 st) R C th tw as_indices rs re cs ce) (fun a =>
+    Ok (map (map (fun v => index1 v sel)) a)).
+
+Inductive seg_mode := Planes | Combined | Relabelled.
+
+(* one read of a stored segmentation: (segment numbers described, mode, via get_volume?) *)
+Definition seg_read_any (ty : segtype) (described : list Z) (st : list stile) (sel : list Z) (mode : seg_mode)
+           (R C th tw : Z) (ai : bool) (rs re cs ce : option Z) : res val :=
+  if negb (sel_ok described sel) then Err "ValueError"
+  else match ty, mode with
+       | Labelmap, Combined => bind (seg_read_labelmap st sel R C th tw ai rs re cs ce) (fun a => Ok (vz_list2 a))
+       | Labelmap, Relabelled => bind (seg_read_labelmap_relabel st sel R C th tw ai rs re cs ce) (fun a => Ok (vz_list2 a))
+       | Labelmap, Planes => bind (seg_read_labelmap_planes st sel R C th tw ai rs re cs ce)
+                                  (fun l => Ok (VL (map vz_list2 l)))
+       | _, _ => bind (seg_read st sel R C th tw ai rs re cs ce) (fun l => Ok (VL (map vz_list2 l)))
+       end.
+
+Definition vres_id (r : res val) : val := match r with Ok v => v | Err k => VErr k end.
+
+(* construct once; then reads (mode, through get_volume?, region) with a
+   caller-chosen list of segment numbers each *)
+Definition run_seg_reads (ty : segtype) (maxfrac : Z) (full omit : bool) (planes : list plane)
+           (segs described : list Z) (R C th tw : Z)
+           (reads : list (seg_mode * bool * list Z * region)) : val :=
+  match stored ty maxfrac full omit planes segs R C th tw with
+  | Err k => VErr k
+  | Ok st =>
+      VL (VZ (Z.of_nat (length st)) ::
+          map (fun rd : seg_mode * bool * list Z * region =>
+                 match rd with (mode, via_volume, sel, (ai, (rs, re, cs, ce))) =>
+                   if via_volume then
+                     (* get_volume checks `len(segment_numbers) == 0` first, standardises, then reads *)
+                     if match sel with [] => true | _ => false end then VErr "ValueError"
+                     else vres_id (vol_region ai rs re cs ce R C
+                                     (seg_read_any ty described st sel mode R C th tw))
+                   else vres_id (seg_read_any ty described st sel mode R C th tw ai rs re cs ce)
+                 end) reads)
   end.
